@@ -269,12 +269,17 @@ Graph::NodeId GlobalGraph::createNodeOnEdge(Graph::EdgeId edge)
   // origin must be an existing edge
   edgeMustExist_(edge, "");
 
-  Graph::NodeId newNode = createNode();
-
   // determining the nodes on the border of the edge
   pair<GlobalGraph::Node, GlobalGraph::Node> nodes = edgeStructure_[edge];
   GlobalGraph::Node nodeA = nodes.first;
   GlobalGraph::Node nodeB = nodes.second;
+
+  // A - A in an undirected graph would become A - N twice, which the node
+  // structure cannot hold (checked before anything is created)
+  if (!directed_ && nodeA == nodeB)
+    throw Exception("GlobalGraph::createNodeOnEdge : cannot split the undirected self-loop " + TextTools::toString(edge));
+
+  Graph::NodeId newNode = createNode();
 
   unlink(nodeA, nodeB);
   link(nodeA, newNode);
